@@ -252,6 +252,116 @@ def expandPackageWith (verify : Bool) (L : Lib) (expected : Want) (cache : Optio
             | .error x => .error x
             | .ok (e', c') => .ok (e', some c')
 
+/-! ### round 5: the tail of `expandPackage` (everything after the cache lookup) as a PROGRAM
+
+The repository may answer every request for the package URL differently (`Resp`, a script of answers: the k-th
+`FetchPackage` of the run gets the k-th one, the last one is repeated).  A tail is a tree of the four calls that
+matter, each with what follows its failure and what follows its success.  `Impl.tail` is today's; it is read off the
+regenerated statement list by `parseTail` (tie `tie_expandPackage_tail`).  `guarded` is the syntactic condition
+"every successful return is dominated by a `verifyExpanded` of the LAST expansion"; the theorem
+(`Proofs/C05.guarded_tail_authentic`) is about every tail that satisfies it and every script. -/
+
+/-- one answer of the repository to a request for the package URL -/
+inductive Resp where
+  | refused                 -- no 200 (`FetchPackage` returns an error)
+  | broken                  -- a body that does not split into members: cut short, garbled (`ExpandApk` returns an error)
+  | apk (a : Apk)           -- a stream that splits into members
+  deriving DecidableEq, Repr
+
+/-- the first answer as `PkgReq.fetched` records it (`none`: refused or broken) -/
+def Resp.toOption : Resp → Option Apk
+  | .apk a => some a
+  | _ => none
+
+inductive Tail where
+  | fail                                  -- `return nil, err`
+  | done                                  -- `return exp, nil`
+  | store                                 -- `return a.cachePackage(ctx, pkg, exp, cacheDir)`
+  | fetch (onErr onOk : Tail)             -- `rc, err := a.FetchPackage(ctx, pkg)`
+  | expand (onErr onOk : Tail)            -- `exp, err := expandapk.ExpandApk(ctx, rc, cacheDir)`
+  | verify (onErr onOk : Tail)            -- `err := a.verifyExpanded(pkg, exp)`
+  | noCache (thenT elseT : Tail)          -- `if a.cache == nil`
+  deriving DecidableEq, Repr
+
+structure TailState where
+  script : List Resp                -- the answers to the requests still to come
+  rc : Option Apk := none           -- the open stream (`none`: nothing that splits)
+  exp : Option Expanded := none     -- the current `exp`
+  err : Err := .fetch               -- the current `err`
+  deriving Repr
+
+/-- the answer to the next request and the answers after it -/
+def nextResp : List Resp → Resp × List Resp
+  | [] => (.refused, [])
+  | x :: r => (x, if r.isEmpty then [x] else r)
+
+def runTail (L : Lib) (w : Want) (cache : Option Cache) : Tail → TailState → Except Err (Expanded × Option Cache)
+  | .fail, s => .error s.err
+  | .done, s =>
+    match s.exp with
+    | some e => .ok (e, cache)
+    | none => .error s.err
+  | .store, s =>
+    match s.exp, cache with
+    | some e, some c =>
+      match cachePackage L e c with
+      | .error x => .error x
+      | .ok (e', c') => .ok (e', some c')
+    | _, _ => .error .cache
+  | .fetch a b, s =>
+    match nextResp s.script with
+    | (.refused, rest) => runTail L w cache a { s with script := rest, rc := none, err := .fetch }
+    | (.broken, rest) => runTail L w cache b { s with script := rest, rc := none }
+    | (.apk x, rest) => runTail L w cache b { s with script := rest, rc := some x }
+  | .expand a b, s =>
+    match s.rc with
+    | none => runTail L w cache a { s with exp := none, err := .fetch }
+    | some x =>
+      match expand L x with
+      | .error er => runTail L w cache a { s with exp := none, err := er }
+      | .ok e => runTail L w cache b { s with exp := some e }
+  | .verify a b, s =>
+    match s.exp with
+    | none => runTail L w cache a s
+    | some e =>
+      match verifyExpanded L w.digest e with
+      | .error er => runTail L w cache a { s with exp := none, err := er }
+      | .ok () => runTail L w cache b s
+  | .noCache a b, s => if cache.isNone then runTail L w cache a s else runTail L w cache b s
+
+/-- `guarded v t`: on every path through `t` a successful return (`done`, `store`) hands out an expansion that
+`verifyExpanded` accepted — `v` says whether the current `exp` is such a one.  A new `ExpandApk` resets it. -/
+def guarded : Bool → Tail → Bool
+  | _, .fail => true
+  | v, .done => v
+  | v, .store => v
+  | v, .fetch a b => guarded v a && guarded v b
+  | _, .expand a b => guarded false a && guarded false b
+  | _, .verify a b => guarded false a && guarded true b
+  | v, .noCache a b => guarded v a && guarded v b
+
+/-- the statement list of the tail, read as a program (`none`: a statement this reader does not know) -/
+def parseTail : List String → Option Tail
+  | [] => none
+  | s :: r =>
+    if s = "defer rc.Close()" then parseTail r
+    else if s = "if err := a.verifyExpanded(pkg, exp); err != nil → return-error" then (parseTail r).map (Tail.verify .fail)
+    else if s = "if a.cache == nil → return-ok" then (parseTail r).map (Tail.noCache .done)
+    else if s = "return a.cachePackage(ctx, pkg, exp, cacheDir)" then (if r.isEmpty then some .store else none)
+    else match r with
+      | [] => none
+      | s2 :: r2 =>
+        if s2 ≠ "if err != nil → return-error" then none
+        else if s = "rc, err := a.FetchPackage(ctx, pkg)" then (parseTail r2).map (Tail.fetch .fail)
+        else if s = "exp, err := expandapk.ExpandApk(ctx, rc, cacheDir)" then (parseTail r2).map (Tail.expand .fail)
+        else none
+
+namespace Impl
+/-- the tail of today's `expandPackage`: fetch, expand, verify, then return or advertise in the cache
+(tied to `Generated.stmts_expandPackageTail` through `parseTail`) -/
+def tail : Tail := .fetch .fail (.expand .fail (.verify .fail (.noCache .done .store)))
+end Impl
+
 namespace Impl
 /-- does today's `expandPackage` call `verifyExpanded` between `ExpandApk` and `cachePackage`?
 (tied to the regenerated fact `Generated.expandPackageVerifies`) -/
@@ -405,7 +515,7 @@ structure PkgReq where
   /-- round 5: what the repository answers to the LATER requests for the package URL within the same operation
   (`fetched` is the answer to the first one; the last answer is repeated).  Today's `expandPackage` asks once
   (`Impl.tail` has one `fetch`), so nothing below reads this field; `runTail` does, for any tail. -/
-  later : List (Option Apk) := []
+  later : List Resp := []
   deriving DecidableEq, Repr
 
 inductive OpKind where
